@@ -270,8 +270,11 @@ func (c *callEngine) callWithStack(ctx context.Context, paramResultStack []uint6
 			// of its resources is deferred to the call: also when the call fails for a reason of its own.
 			_ = c.parent.module.FailIfClosed()
 		} else {
+			// When the module was closed asynchronously during the call (close on context done), the closure
+			// of its resources is deferred to the call: also when the call ends with a stack overflow.
+			closedErr := c.parent.module.FailIfClosed()
 			if err != wasmruntime.ErrRuntimeStackOverflow { // Stackoverflow case shouldn't be panic (to avoid extreme stack unwinding).
-				err = c.parent.module.FailIfClosed()
+				err = closedErr
 			}
 		}
 
